@@ -286,6 +286,9 @@ pub use de::DecoderConfig;
 pub mod ser;
 
 pub mod utils;
+#[cfg(feature = "verif_hooks")]
+#[doc(hidden)]
+pub mod verif;
 pub use utils::{
     decode_args, decode_args_with_config, decode_args_with_decoding_and_skipping_quota,
     decode_args_with_decoding_quota, decode_args_with_skipping_quota, decode_one,
